@@ -4,6 +4,9 @@
 //!   fg_harness gen --seed S --count N --kinds <csv> [--maxn K]      > trace
 //!   fg_harness replay <casefile>                                      > trace
 //!   fg_harness kpops --sizes a,b,c                                    > trace   (C18 growth series)
+//!   fg_harness enum --maxn K --kind run|stream --part i --parts n     > trace   (all schedules)
+//!   fg_harness enumb --maxn K --decls small|full --part i --parts n   > trace   (builder space)
+//!   fg_harness sweep --sizes a,b --stride s                           > trace   (budget x interrupt / failure)
 
 mod graphs;
 mod runs;
